@@ -364,4 +364,197 @@ theorem C17_arm_at_most_15_in_a_row (v : Views F G) (hv : Faithful v) (s : Full 
 example : (ticksOf exViews { exF with cls := Classifier.State.init } exEvs).map List.length = [3, 4] := by
   decide +kernel
 
+/-! ## 3. C16 at arm level -/
+
+section c16
+open Srtla.LinkCc
+
+theorem ids_hkArm (v : Views F G) (s : Full F G) (now : Nat) :
+    ids (hkArm v s now).1.sys.links = ids s.sys.links := by
+  rw [← afterHk_ids s.sys now, hkArm_links]
+  simp only [ids, List.map_map]
+  exact List.map_congr_left fun l _ => rfl
+
+theorem mem_ccConns_iff (v : Views F G) (hv : Faithful v) (ls : List (FLink F)) (id : Nat) :
+    (∃ c ∈ ccConns v ls, c.id = id) ↔ id ∈ ids ls := by
+  simp only [ccConns, ids, List.mem_map]
+  constructor
+  · rintro ⟨c, ⟨l, hl, rfl⟩, rfl⟩; exact ⟨l, hl, (hv.ccId l).symm⟩
+  · rintro ⟨l, hl, rfl⟩; exact ⟨v.cc l, ⟨l, hl, rfl⟩, hv.ccId l⟩
+
+/-- **Entries after a tick = the conn ids of the links of that tick** (`per_conn.retain`): the controller holds an
+entry for `id` after the arm iff a link with conn id `id` exists after the arm. -/
+theorem C16_arm_entries_exact (v : Views F G) (hv : Faithful v) (s : Full F G) (now id : Nat) :
+    ((hkArm v s now).1.ctl.get id).isSome = true ↔ id ∈ ids (hkArm v s now).1.sys.links := by
+  rw [hkArm_ctl, tickAll_isSome_iff, mem_ccConns_iff v hv, ids_hkArm, afterHk_ids]
+
+/-- **The stamped CC fields are the snapshot of the link's controller entry, which exists.**  For the link at index
+`i` at the tick: after the arm the controller has an entry `st` for its conn id and the link carries
+`cc_target_bps = st.target_bps`, `cc_backing_off = (st.state == BackingOff)`, `loss_degraded = st.loss_degraded`
+(the `unwrap_or(0)` / `unwrap_or(false)` defaults are never taken for a present link). -/
+theorem C16_arm_target_is_snapshot (v : Views F G) (hv : Faithful v) (s : Full F G) (now i : Nat) (l : FLink F)
+    (hl : (afterHk s.sys now).1.links[i]? = some l) :
+    ∃ l' st, (hkArm v s now).1.sys.links[i]? = some l' ∧ l'.core.connId = l.core.connId ∧
+      (hkArm v s now).1.ctl.get l.core.connId = some st ∧
+      l'.ccTarget = st.target ∧ l'.ccBackingOff = decide (st.state = .backingOff) ∧
+      l'.lossDegraded = st.lossDegraded := by
+  have hsome : ((hkArm v s now).1.ctl.get l.core.connId).isSome = true := by
+    rw [hkArm_ctl, tickAll_isSome_iff, mem_ccConns_iff v hv]
+    exact List.mem_map.2 ⟨l, List.mem_of_getElem? hl, rfl⟩
+  obtain ⟨st, hst⟩ := Option.isSome_iff_exists.1 hsome
+  have hst' : (tickAll s.ctl (ccConns v (afterHk s.sys now).1.links) now).get l.core.connId = some st := hst
+  refine ⟨FLink.stamped l (armStamp v s now l.core.connId), st, ?_, stamped_connId _ _, hst, ?_, ?_, ?_⟩
+  · rw [hkArm_get, hl]; rfl
+  · rw [stamped_ccTarget]; unfold armStamp; rw [stampOf_ccTarget, hst']; rfl
+  · rw [stamped_ccBackingOff]; unfold armStamp; rw [stampOf_ccBackingOff, hst']; rfl
+  · rw [stamped_lossDegraded]; unfold armStamp; rw [stampOf_lossDegraded, hst']; rfl
+
+/-- **A link the controller has no entry for starts from `LinkCongestionState::default()`** — never seen, or created
+by a reload since the last tick (`C16_arm_reload_link_starts_default`): its entry after the arm is ONE loop body from
+the default state, hence within bounds (`C16_fresh_entry_ctl` through the arm). -/
+theorem C16_arm_fresh_from_default (v : Views F G) (hv : Faithful v) (s : Full F G) (now : Nat) (l : FLink F)
+    (hnd : (ids s.sys.links).Nodup) (hl : l ∈ (afterHk s.sys now).1.links)
+    (hg : s.ctl.get l.core.connId = none) :
+    (hkArm v s now).1.ctl.get l.core.connId = some (connStep (St.default : St G) (v.cc l) now) ∧
+    100000 ≤ (connStep (St.default : St G) (v.cc l) now).target ∧
+    (connStep (St.default : St G) (v.cc l) now).target ≤ 200000000 := by
+  obtain ⟨pre, post, hsplit⟩ := List.append_of_mem hl
+  have hnd' : (ids (afterHk s.sys now).1.links).Nodup := by rw [afterHk_ids]; exact hnd
+  rw [hsplit] at hnd'
+  simp only [ids, List.map_append, List.map_cons] at hnd'
+  rw [List.nodup_append] at hnd'
+  obtain ⟨-, h2, h3⟩ := hnd'
+  rw [List.nodup_cons] at h2
+  have hpre : ∀ d ∈ pre.map v.cc, d.id ≠ (v.cc l).id := by
+    intro d hd
+    obtain ⟨x, hx, rfl⟩ := List.mem_map.1 hd
+    rw [hv.ccId, hv.ccId]
+    exact h3 _ (List.mem_map.2 ⟨x, hx, rfl⟩) _ List.mem_cons_self
+  have hpost : ∀ d ∈ post.map v.cc, d.id ≠ (v.cc l).id := by
+    intro d hd
+    obtain ⟨x, hx, rfl⟩ := List.mem_map.1 hd
+    rw [hv.ccId, hv.ccId]
+    intro e
+    exact h2.1 (e ▸ List.mem_map.2 ⟨x, hx, rfl⟩)
+  have key := C16.C16_fresh_entry_ctl s.ctl (pre.map v.cc) (post.map v.cc) (v.cc l) now
+    (by rw [hv.ccId]; exact hg) hpre hpost
+  obtain ⟨k1, -, k3, k4, -⟩ := key
+  refine ⟨?_, k3, k4⟩
+  rw [hkArm_ctl, hsplit]
+  simp only [ccConns, List.map_append, List.map_cons]
+  rw [← hv.ccId l]
+  exact k1
+
+/-- Events other than ticks do not touch the filter or the controller. -/
+theorem run_other_keeps (v : Views F G) (s : Full F G) (es : List FEv) (h : ∀ e ∈ es, ∃ e', e = FEv.other e') :
+    (Full.run v s es).1.ctl = s.ctl ∧ (Full.run v s es).1.cls = s.cls := by
+  induction es generalizing s with
+  | nil => exact ⟨rfl, rfl⟩
+  | cons e es ih =>
+    obtain ⟨e', rfl⟩ := h e List.mem_cons_self
+    exact ih _ fun x hx => h x (List.mem_cons_of_mem _ hx)
+
+/-- **A link created by a reload starts from the default state.**  After a tick, let ANY events other than ticks
+happen (client / uplink / flush traffic, reloads that remove and create links).  A link present at the next tick
+whose conn id no link had right after the first tick — a link some reload created with a new id — has its controller
+entry after the second tick equal to one loop body from `LinkCongestionState::default()`.  (`hnd`: the conn ids before
+the second tick are pairwise distinct — `Full_run_inv`.) -/
+theorem C16_arm_reload_link_starts_default (v : Views F G) (hv : Faithful v) (s : Full F G) (now1 now2 : Nat)
+    (es : List FEv) (hes : ∀ e ∈ es, ∃ e', e = FEv.other e') (l : FLink F)
+    (hnd : (ids (Full.run v (hkArm v s now1).1 es).1.sys.links).Nodup)
+    (hl : l ∈ (afterHk (Full.run v (hkArm v s now1).1 es).1.sys now2).1.links)
+    (hnew : l.core.connId ∉ ids (hkArm v s now1).1.sys.links) :
+    (hkArm v (Full.run v (hkArm v s now1).1 es).1 now2).1.ctl.get l.core.connId =
+      some (connStep (St.default : St G) (v.cc l) now2) := by
+  refine (C16_arm_fresh_from_default v hv _ now2 l hnd hl ?_).1
+  rw [(run_other_keeps v _ es hes).1]
+  cases hg : (hkArm v s now1).1.ctl.get l.core.connId with
+  | none => rfl
+  | some st =>
+    exact absurd ((C16_arm_entries_exact v hv s now1 l.core.connId).1 (by rw [hg]; rfl)) hnew
+
+/-- The stamped target of a link is 0 (never stamped / link created since) or within [100 kbit/s, 200 Mbit/s]. -/
+def TargetOk (l : FLink F) : Prop := l.ccTarget = 0 ∨ (100000 ≤ l.ccTarget ∧ l.ccTarget ≤ 200000000)
+
+/-- Invariant of the whole sender for C16: the controller is reachable from `LinkCcController::new()` by `tick_all`
+calls, and every link's stamped target is 0 or within bounds. -/
+structure ArmInv (s : Full F G) : Prop where
+  reach : CtlReach s.ctl
+  targets : ∀ l ∈ s.sys.links, TargetOk l
+
+theorem ArmInv_step (v : Views F G) (s : Full F G) (h : ArmInv s) (e : FEv) (hwf : e.wf = true) :
+    ArmInv (Full.step v s e).1 := by
+  cases e with
+  | tick now =>
+    refine ⟨CtlReach.tick _ now h.reach, fun l' hl' => ?_⟩
+    have hr : CtlReach (tickAll s.ctl (ccConns v (afterHk s.sys now).1.links) now) := CtlReach.tick _ now h.reach
+    have hl'' : l' ∈ (hkArm v s now).1.sys.links := hl'
+    rw [hkArm_links] at hl''
+    obtain ⟨l, -, rfl⟩ := List.mem_map.1 hl''
+    unfold TargetOk
+    rw [stamped_ccTarget]; unfold armStamp; rw [stampOf_ccTarget]
+    cases hg : (tickAll s.ctl (ccConns v (afterHk s.sys now).1.links) now).get l.core.connId with
+    | none => exact .inl rfl
+    | some st =>
+      have hb := C16.C16_bounds_ctl _ hr _ st hg
+      exact .inr ⟨hb.1, hb.2.1⟩
+  | other e =>
+    refine ⟨h.reach, fun l' hl' => ?_⟩
+    have hl'' : l' ∈ (step s.sys e).1.links := hl'
+    by_cases hr : e.isReload = true
+    · cases e with
+      | reload rnow addrs outs =>
+        rcases (mem_reload_iff s.sys rnow addrs outs l').1 hl'' with ⟨hold, -⟩ | ⟨k, a, id, -, -, rfl⟩
+        · exact h.targets _ hold
+        · exact .inl rfl
+      | _ => cases hr
+    · have hnr : e.isReload = false := by simpa using hr
+      have hs : isStamp e = false := by cases e <;> first | rfl | cases hwf
+      have hv := step_verdicts s.sys e hs hnr
+      have : verdictsOf l' ∈ (step s.sys e).1.links.map verdictsOf := List.mem_map.2 ⟨l', hl'', rfl⟩
+      rw [hv] at this
+      obtain ⟨l, hl, he⟩ := List.mem_map.1 this
+      have hct : l'.ccTarget = l.ccTarget := (congrArg Stamp.ccTarget he).symm
+      unfold TargetOk; rw [hct]; exact h.targets l hl
+
+/-- **Along every run of the whole sender the stamped target of every link is 0 or within
+[100 000, 200 000 000] bit/s** — any interleaving of ticks with client / uplink / flush / reload / configuration /
+injection events (`FEv.wf`: the shell events `hk`, `syncTimeout`, `stamp` occur only inside a tick, as in the real
+loop); from any state whose controller is reachable from `LinkCcController::new()` and whose links carry admissible
+targets (start-up: empty controller, targets 0).  Every scalar instance of the controller, in particular `Float`
+(`C16_bounds_ctl` through the arm). -/
+theorem C16_arm_bounds_run (v : Views F G) (s : Full F G) (h : ArmInv s) (es : List FEv)
+    (hwf : ∀ e ∈ es, e.wf = true) :
+    ArmInv (Full.run v s es).1 ∧
+    ∀ l ∈ (Full.run v s es).1.sys.links, l.ccTarget = 0 ∨ (100000 ≤ l.ccTarget ∧ l.ccTarget ≤ 200000000) := by
+  have key : ArmInv (Full.run v s es).1 := by
+    induction es generalizing s with
+    | nil => exact h
+    | cons e es ih =>
+      exact ih _ (ArmInv_step v s h e (hwf e List.mem_cons_self)) fun x hx => hwf x (List.mem_cons_of_mem _ hx)
+  exact ⟨key, key.targets⟩
+
+-- non-vacuity: the example state (non-default targets 1 000 000 on every link, a controller that went through a
+-- `tick_all` and still holds the entry of a vanished id 5) satisfies the invariant, the example run is well-formed
+example : ArmInv exF ∧ (∀ e ∈ exEvs, e.wf = true) ∧ (exF.ctl.get 5).isSome = true ∧
+    exF.sys.links.map (·.ccTarget) = [1000000, 1000000, 1000000] := by
+  refine ⟨⟨CtlReach.tick _ _ CtlReach.empty, ?_⟩, by decide, by decide +kernel, by decide +kernel⟩
+  have : exF.sys.links.map (·.ccTarget) = [1000000, 1000000, 1000000] := by decide +kernel
+  intro l hl
+  have hm : l.ccTarget ∈ exF.sys.links.map (·.ccTarget) := List.mem_map.2 ⟨l, hl, rfl⟩
+  rw [this] at hm
+  simp only [List.mem_cons, List.not_mem_nil, or_false, or_self] at hm
+  exact .inr (by omega)
+
+-- non-vacuity of `C16_arm_entries_exact` / `C16_arm_reload_link_starts_default`: in the example run the reload
+-- between the two ticks creates the links 7 and 8, which no link had after the first tick; the vanished id 5 is
+-- collected by the first tick
+example :
+    ((hkArm exViews exF 5100).1.ctl.get 5).isSome = false ∧
+    ids (hkArm exViews exF 5100).1.sys.links = [1, 2, 3] ∧
+    ids (Full.run exViews (hkArm exViews exF 5100).1 [.other exReload]).1.sys.links = [1, 3, 7, 8] := by
+  refine ⟨by decide +kernel, by decide +kernel, by decide +kernel⟩
+
+end c16
+
 end Srtla.Props.SysArm
